@@ -599,6 +599,20 @@ func genDecimals() {
 			emit(38, 0, new(big.Int).Sub(x, one), "byte-boundary")
 		}
 	}
+	// the machine-word boundary of the magnitude: 8 magnitude bytes with the top bit set (2^63 .. 2^64-1) and its neighbours
+	p2 := func(k uint) *big.Int { return new(big.Int).Lsh(one, k) }
+	for _, x := range []*big.Int{new(big.Int).Sub(p2(63), one), p2(63), new(big.Int).Add(p2(63), one), new(big.Int).Sub(p2(64), one), p2(64),
+		new(big.Int).Add(p2(64), one), new(big.Int).Sub(pow(19), one), pow(19), new(big.Int).Add(p2(63), new(big.Int).SetUint64(rng.U64()>>1)),
+		new(big.Int).Sub(p2(32), one), p2(32), new(big.Int).Sub(p2(31), one), p2(31)} {
+		for _, p := range []int{10, 19, 20, 21, 38} {
+			if len(x.String()) > p {
+				continue
+			}
+			for _, s := range []int{0, 1, 4, p / 2, p} {
+				emit(p, s, x, "word-boundary")
+			}
+		}
+	}
 	// off the domain: beyond 38 digits (still encodes), Decimal without value, wrong type
 	value(asetypes.DECN, 0, vDec(38, 0, new(big.Int).Lsh(one, 200)), "offdomain;decimal-beyond-38-digits")
 	value(asetypes.DECN, 0, vDec(38, 0, nil), "null;DECN;decimal-without-value")
@@ -834,6 +848,75 @@ func genSmall() {
 	value(asetypes.SHORTDATE, 4, vTime(2079, 6, 7, 0, 0, 0, 0), "offdomain;smalldatetime-after-2079")
 }
 
+// the seconds boundary of a minute, for every temporal type: the classic 8-byte/4-byte tick types ROUND to the nearest
+// 1/300 s tick, so hh:mm:59.998334 and later belongs to the first tick of the NEXT minute (23:59:59.998334.. to the
+// next day for DATETIME, to the last tick for TIME); the minute-granular smalldatetime layout (SHORTDATE, DATETIMEN(4)),
+// DATE and the microsecond types TRUNCATE: the same instants stay in their minute / day / microsecond. Times of day
+// hh:mm:59.996 .. .999999999 around that boundary and whole/half-minute seconds (0, 29, 30, 58, 59), for several
+// hours and minutes incl. 23:59, on the first and last days of every type's range and the day before.
+var boundaryHM = [][2]int{{0, 0}, {0, 59}, {11, 59}, {12, 0}, {12, 30}, {22, 59}, {23, 0}, {23, 58}, {23, 59}}
+
+var boundarySecNs = [][2]int{
+	{59, 996000000}, {59, 996666000}, {59, 996667000}, {59, 997000000}, {59, 998000000}, {59, 998333000}, {59, 998333999},
+	{59, 998334000}, {59, 998500000}, {59, 999000000}, {59, 999999000}, {59, 999999999},
+	{0, 0}, {0, 999999999}, {29, 0}, {29, 999999999}, {30, 0}, {30, 999999000}, {58, 999999999}, {59, 0},
+}
+
+func genSecondBoundaries() {
+	smallDays := [][3]int{{1900, 1, 1}, {1900, 1, 2}, {2000, 2, 28}, {2000, 2, 29}, {2024, 5, 17}, {2079, 6, 5}, {2079, 6, 6}}
+	dtDays := [][3]int{{1, 1, 1}, {1753, 1, 1}, {1899, 12, 30}, {1899, 12, 31}, {1900, 1, 1}, {2000, 2, 28}, {2024, 12, 31}, {9999, 12, 30}, {9999, 12, 31}}
+	todDays := [][3]int{{1, 1, 1}, {2000, 2, 29}}
+	each := func(days [][3]int, f func(v val, us int, d string)) {
+		for _, day := range days {
+			for _, hm := range boundaryHM {
+				for _, sn := range boundarySecNs {
+					us := hm[0]*3600000000 + hm[1]*60000000 + sn[0]*1000000 + sn[1]/1000
+					d := "second-boundary"
+					if sn[0] == 59 && sn[1] >= 998334000 {
+						d = "second-boundary;rounds-into-next-minute"
+					}
+					f(vTime(day[0], day[1], day[2], hm[0], hm[1], sn[0], sn[1]), us, d)
+				}
+			}
+		}
+	}
+	each(smallDays, func(v val, us int, d string) {
+		value(asetypes.SHORTDATE, 4, v, "smalldatetime;SHORTDATE;"+d)
+		value(asetypes.DATETIMEN, 4, v, "smalldatetime;DATETIMEN;4;"+d)
+	})
+	each(dtDays, func(v val, us int, d string) {
+		cls := "datetime"
+		if us >= 86399998334 { // rounds up to the tick count of a whole day
+			cls = "datetime-carry"
+		}
+		value(asetypes.DATETIME, 8, v, cls+";DATETIME;"+d)
+		value(asetypes.DATETIMEN, 8, v, cls+";DATETIMEN;8;"+d)
+		value(asetypes.BIGDATETIMEN, 8, v, "bigdatetime;"+d)
+		value(asetypes.DATE, 4, v, "date;DATE;"+d)
+		value(asetypes.DATEN, 4, v, "date;DATEN;"+d)
+		if v.tm[3] >= 22 || v.tm[3] == 0 {
+			helpersOfTime(v, "helper;"+d)
+		}
+	})
+	each(todDays, func(v val, us int, d string) {
+		cls := "time"
+		if us >= 86399998334 {
+			cls = "time-lastcell"
+		}
+		dd := d
+		if v.tm[0] != 1 {
+			dd = "date-part-ignored;" + d
+		}
+		value(asetypes.TIME, 4, v, cls+";TIME;"+dd)
+		value(asetypes.TIMEN, 4, v, cls+";TIMEN;"+dd)
+		value(asetypes.BIGTIMEN, 8, v, "bigtime;"+dd)
+		helpersOfTOD(v, "helper;time-of-day;"+d)
+		if v.tm[0] == 1 {
+			helperM2F(int64(us), "helper;ticks-of-us;"+d)
+		}
+	})
+}
+
 func genTemporalOff() {
 	// documented vectors
 	value(asetypes.DATETIME, 8, vTime(1753, 1, 1, 0, 0, 0, 0), "datetime;vector-1753")
@@ -1058,6 +1141,7 @@ func main() {
 	genMoney()
 	genDecimals()
 	genStrings()
+	genSecondBoundaries()
 	genSmall()
 	genDays()
 	genTicks()
